@@ -32,6 +32,9 @@ enum Case {
     AmfString(usize),
     AmfName(usize),
     StringCfg(&'static str, usize),
+    /// a chunk size announced by the peer to a session (server?), as the first message completed in
+    /// an input call or after another one
+    PeerChunk(u32, bool, bool),
 }
 
 const CHUNK_VALUES: [u32; 16] = [0, 1, 2, 3, 127, 128, 129, 65536, 0xFFFFFF, 0x1000000, 0x7FFF_FFFE, 0x7FFF_FFFF, 0x8000_0000, 0x8000_0001, 0xFFFF_FFFE, 0xFFFF_FFFF];
@@ -47,6 +50,13 @@ fn fixed_cases() -> Vec<Case> {
         v.push(Case::DeserSet(c as u64));
         v.push(Case::ServerChunk(c));
         v.push(Case::ClientChunk(c));
+    }
+    for c in CHUNK_VALUES {
+        for server in [true, false] {
+            for first in [true, false] {
+                v.push(Case::PeerChunk(c, server, first));
+            }
+        }
     }
     for big in [1u64 << 32, (1u64 << 32) + 1, 1u64 << 40, u64::MAX >> 1, u64::MAX] {
         v.push(Case::DeserSet(big));
@@ -201,6 +211,64 @@ fn run(case: &Case, rng: &mut Rng, out: &mut Out) {
     let what = json!(format!("{:?}", case));
     let _cg = ClockGuard;
     match case {
+        Case::PeerChunk(v, server, first) => {
+            use crate::refs::chunk::{Encoder, Msg};
+            use rml_rtmp::sessions::{ClientSession, ClientSessionResult, ServerSession, ServerSessionResult};
+            let in_range = chunk_in_range(*v as u64);
+            let r = lib_call(out, "session handle_input(SetChunkSize from the peer)", || what.clone(), || -> Result<(bool, usize), String> {
+                let mut enc = Encoder::new();
+                let ping = |n: u32| Msg { type_id: 4, msid: 0, ts: 0, data: vec![0, 6, (n >> 24) as u8, (n >> 16) as u8, (n >> 8) as u8, n as u8] };
+                let mut call1 = Vec::new();
+                if !*first {
+                    call1.extend(enc.encode_simple(&ping(1), 2));
+                }
+                call1.extend(enc.encode_simple(&Msg { type_id: 1, msid: 0, ts: 0, data: v.to_be_bytes().to_vec() }, 2));
+                // what follows is cut at the new size when it is one a sender could use
+                if in_range {
+                    enc.chunk_size = *v as usize;
+                }
+                let mut call2 = enc.encode_simple(&Msg { type_id: 22, msid: 0, ts: 0, data: (0..300u32).map(|i| i as u8).collect() }, 7);
+                call2.extend(enc.encode_simple(&ping(2), 2));
+                // a session answers a ping request with one packet: count them
+                if *server {
+                    let (mut s, _) = ServerSession::new(ServerSessionConfig::new()).map_err(|e| format!("{:?}", e))?;
+                    let pongs = |rs: &Vec<ServerSessionResult>| rs.iter().filter(|r| matches!(r, ServerSessionResult::OutboundResponse(_))).count();
+                    let r1 = s.handle_input(&call1);
+                    match r1 {
+                        Err(_) => Ok((false, 0)),
+                        Ok(rs1) => {
+                            let rs2 = s.handle_input(&call2).map_err(|e| format!("after an accepted chunk size: {:?}", e))?;
+                            Ok((true, pongs(&rs1) + pongs(&rs2)))
+                        }
+                    }
+                } else {
+                    let (mut s, _) = ClientSession::new(ClientSessionConfig::new()).map_err(|e| format!("{:?}", e))?;
+                    let pongs = |rs: &Vec<ClientSessionResult>| rs.iter().filter(|r| matches!(r, ClientSessionResult::OutboundResponse(_))).count();
+                    let r1 = s.handle_input(&call1);
+                    match r1 {
+                        Err(_) => Ok((false, 0)),
+                        Ok(rs1) => {
+                            let rs2 = s.handle_input(&call2).map_err(|e| format!("after an accepted chunk size: {:?}", e))?;
+                            Ok((true, pongs(&rs1) + pongs(&rs2)))
+                        }
+                    }
+                }
+            });
+            match r {
+                Some(Ok((accepted, pongs))) => {
+                    let want_pongs = if *first { 1 } else { 2 };
+                    match (in_range, accepted) {
+                        (true, true) if pongs == want_pongs => out.count("in_range_value_honoured", 1),
+                        (true, true) => out.violation("accepted-chunk-size-but-session-does-not-work", json!({"case": what, "ping_responses": pongs, "expected": want_pongs})),
+                        (true, false) => out.violation("in-range-value-refused", what.clone()),
+                        (false, false) => out.count("out_of_range_value_refused", 1),
+                        (false, true) => out.violation("out-of-range-value-accepted", what.clone()),
+                    }
+                }
+                Some(Err(e)) => out.violation("accepted-chunk-size-but-session-does-not-work", json!({"case": what, "error": e})),
+                None => {}
+            }
+        }
         Case::SerSet(v) => {
             let r = lib_call(out, "ChunkSerializer::set_max_chunk_size", || what.clone(), || {
                 let mut s = ChunkSerializer::new();
@@ -471,6 +539,7 @@ impl Check for C19 {
                 7 => Case::BufferLength(v),
                 8 => Case::SerPayload(*rng.pick(&[16_777_215usize, 16_777_216, 100, 70_000]) + if rng.coin() { 0 } else { rng.usize(0, 3) }),
                 9 => Case::AmfString(65530 + rng.usize(0, 12)),
+                10 if rng.coin() => Case::PeerChunk(v, rng.coin(), rng.coin()),
                 10 => Case::AmfName(65530 + rng.usize(0, 12)),
                 _ => Case::StringCfg(*rng.pick(&STR_FIELDS), *rng.pick(&[10usize, 300, 65000, 65535 - 40, 65535, 65536])),
             }
@@ -480,7 +549,7 @@ impl Check for C19 {
         run(&case, rng, out);
     }
     fn rule(&self) -> String {
-        "one call class x value per case, each in a supervised worker (CPU-time watchdog 30 s per case, allocator ceiling): chunk size {0,1,2,3,127,128,129,65536,2^24-1,2^24,2^31-2,2^31-1,2^31,2^31+1,2^32-2,2^32-1, boundary-biased random} into ChunkSerializer::set_max_chunk_size, ChunkDeserializer::set_max_chunk_size (also usize values beyond u32), ServerSessionConfig.chunk_size, ClientSessionConfig.chunk_size; window/bandwidth/buffer length {0,1,2,100,2^31-1,2^31,2^32-2,2^32-1, random}; payload lengths {0,16777214,16777215,16777216,16777217,20M,32M} into serialize and through both sessions; AMF0 string and property-name lengths {0,1,65534..65537,70000}; fms_version/flash_version/tc_url/app/stream-key strings of those lengths. One case in twelve applies accepted chunk sizes through in-band SetChunkSize messages placed between the chunks of messages in flight on other chunk streams (the C16 history). Out-of-range must give Err (at the call or at first use); every accepted value is followed by a codec round trip or a connect+publish|play scenario of 4-6 items that must complete exactly. distinct = distinct (call class, value).".to_string()
+        "one call class x value per case, each in a supervised worker (CPU-time watchdog 30 s per case, allocator ceiling): chunk size {0,1,2,3,127,128,129,65536,2^24-1,2^24,2^31-2,2^31-1,2^31,2^31+1,2^32-2,2^32-1, boundary-biased random} into ChunkSerializer::set_max_chunk_size, ChunkDeserializer::set_max_chunk_size (also usize values beyond u32), ServerSessionConfig.chunk_size, ClientSessionConfig.chunk_size, and announced by the peer to a server and a client session (as the first message completed in an input call, or after another one); window/bandwidth/buffer length {0,1,2,100,2^31-1,2^31,2^32-2,2^32-1, random}; payload lengths {0,16777214,16777215,16777216,16777217,20M,32M} into serialize and through both sessions; AMF0 string and property-name lengths {0,1,65534..65537,70000}; fms_version/flash_version/tc_url/app/stream-key strings of those lengths. One case in twelve applies accepted chunk sizes through in-band SetChunkSize messages placed between the chunks of messages in flight on other chunk streams (the C16 history). Out-of-range must give Err (at the call or at first use); every accepted value is followed by a codec round trip or a connect+publish|play scenario of 4-6 items that must complete exactly. distinct = distinct (call class, value).".to_string()
     }
     fn assumptions(&self) -> Vec<String> {
         vec![
@@ -490,7 +559,7 @@ impl Check for C19 {
     }
     fn required_counters(&self, _tier: Tier) -> Vec<String> {
         let mut v = vec!["in_range_value_honoured".to_string(), "out_of_range_value_refused".into()];
-        for c in ["SerSet", "DeserSet", "ServerChunk", "ClientChunk", "ServerWindow", "ClientWindow", "PeerBandwidth", "BufferLength", "SerPayload", "ClientPayload", "ServerPayload", "AmfString", "AmfName", "StringCfg", "DeserSetWhileMessagesInFlight"] {
+        for c in ["SerSet", "DeserSet", "ServerChunk", "ClientChunk", "ServerWindow", "ClientWindow", "PeerBandwidth", "BufferLength", "SerPayload", "ClientPayload", "ServerPayload", "AmfString", "AmfName", "StringCfg", "DeserSetWhileMessagesInFlight", "PeerChunk"] {
             v.push(format!("class_{}", c));
         }
         v
